@@ -103,6 +103,15 @@ def lazy_routing(prog, rep):
 def run(prog, rep):
     C02.lazy_phases(prog, rep)
     lazy_routing(prog, rep)
+    # the context handed from stanza to stanza is read-only: no memo/cache can carry facts of one stanza into the check of another
+    from ..lib import typewalk
+    rep.rule("C06.C", "tsg::checker::CheckContext holds no interior mutability (every stanza is checked against the file, never against what earlier stanzas left behind)")
+    im = typewalk.interior_mutability(prog.lib, prog, "tsg::checker::CheckContext")
+    if im is None:
+        rep.violation("C06.C", "anchor-lost:CheckContext", "", "type not found")
+    else:
+        rep.check(not im, "C06.C", "CheckContext :: no interior mutability", "", "no Cell/RefCell/Mutex/Atomic reachable through its fields",
+                  "the checker's context carries mutable shared state (%s): what one stanza resolves can change how a later stanza is checked" % (im[:2],))
     # a restricted query cursor drops matches depending on how many are pending, which depends on stanza order
     from . import C03
     C03.capture_and_cursor(prog, rep)
